@@ -32,7 +32,8 @@ Malformed == {"none", "missingFile", "invalidJson", "unknownServer"}
 ArgClasses == {"none", "plain", "spaces", "quotes", "unicode", "empty", "many"}
 EnvClasses == {"absent", "empty", "values"}
 TimeoutClasses == {"absent", "int", "float", "stringNumber"}
-CmdClasses == {"absolute", "bare"}          \* bare: a name found (differently) on the configured and on the host PATH
+CmdClasses == {"absolute", "bare", "spacePath"}   \* bare: a name found (differently) on the configured and on the host PATH;
+                                                   \* spacePath: an absolute path that contains blanks (one executable, not a command line)
 NoSnapshot == 99
 \* smaller class sets for model checking (argument and timeout classes do not influence any transition)
 SmallArgs == {"plain", "unicode"}
@@ -70,12 +71,12 @@ EnvGiven(n) ==
   IF cfg[n].env = "values" THEN <<"configured", 0>>
   ELSE IF EnvSnapshotCached /\ snapshot # NoSnapshot THEN <<"host", snapshot>> ELSE <<"host", hostEpoch>>
 ResolvedOn(n) ==
-  IF cfg[n].cmd = "absolute" THEN "absolute"
+  IF cfg[n].cmd \in {"absolute", "spacePath"} THEN "absolute"
   ELSE IF entry = "runner" /\ RunnerResolvesOnHostPath THEN "hostPath"
   ELSE IF cfg[n].env = "values" THEN "configuredPath" ELSE "hostPath"
 ExpectedEnv(n) == IF cfg[n].env = "values" THEN <<"configured", 0>> ELSE <<"host", hostEpoch>>
 ExpectedResolution(n) ==
-  IF cfg[n].cmd = "absolute" THEN "absolute" ELSE IF cfg[n].env = "values" THEN "configuredPath" ELSE "hostPath"
+  IF cfg[n].cmd \in {"absolute", "spacePath"} THEN "absolute" ELSE IF cfg[n].env = "values" THEN "configuredPath" ELSE "hostPath"
 
 \* spawn exactly the configured command line and environment for the next loaded server
 Spawn ==
